@@ -16,12 +16,12 @@ RULE = {
     "plus reset/reload sequences on the memory-system and the simulation level; every fetch is observed. non-trivial = run with >=1 hit and >=1 eviction in the reference cache (reload cases: previous program had resident blocks); distinct by case hash."
 }
 ASSUMPTIONS = {"C11": ["reference cache R4 fed the observed fetch address sequence (five-stage mode fetches wrong-path and refetched instructions too; they count by definition)", "results with I-cache on are compared with a run without I-cache and with the sequential reference"]}
-REQUIRED = {"C11": ["fetches_observed", "fetch_identity_checks", "hits", "misses", "evictions", "single_runs", "five_runs", "reload_memsys", "reload_sim", "penalty_steps_with_miss", "results_vs_uncached"]}
+REQUIRED = {"C11": ["fetches_observed", "fetch_identity_checks", "hits", "misses", "evictions", "single_runs", "five_runs", "reload_memsys", "reload_sim", "penalty_steps_with_miss", "results_vs_uncached", "sparse_fetches", "sparse_programs"]}
 
 
 def plan(prop, tier, seed):
     q = tier == "quick"
-    return [{"kind": "directed", "shard": 0}] + [{"kind": "prog", "n": 60 if q else 1600, "shard": i} for i in range(10 if q else 16)] + [{"kind": "reload", "n": 40 if q else 800, "shard": i} for i in range(3 if q else 8)]
+    return [{"kind": "directed", "shard": 0}] + [{"kind": "prog", "n": 60 if q else 1600, "shard": i} for i in range(10 if q else 16)] + [{"kind": "reload", "n": 40 if q else 800, "shard": i} for i in range(3 if q else 8)] + [{"kind": "sparse", "n": 60 if q else 1500, "shard": i} for i in range(2 if q else 8)]
 
 
 def rand_icfg(rng):
@@ -239,6 +239,76 @@ def run_reload(case, res):
         res.nontrivial(h64(case))
 
 
+def run_sparse_case(case, res):
+    """instruction memory filled through the public write_instruction() at SPARSE addresses (gaps inside cache
+    blocks): every fetch through the cache system must return what the uncached instruction memory holds there;
+    a program that jumps over the gaps must give the same result with and without I-cache in both modes."""
+    from architecture_simulator.uarch.memory.instruction_memory_cache_system import InstructionMemoryCacheSystem
+    from architecture_simulator.uarch.memory.instruction_memory import InstructionMemory
+    from architecture_simulator.uarch.riscv.riscv_performance_metrics import RiscvPerformanceMetrics
+
+    cfg = case["icache"]
+    plain = InstructionMemory()
+    ims = InstructionMemoryCacheSystem(InstructionMemory(), cfg["ib"], cfg["bb"], cfg["assoc"], RiscvPerformanceMetrics(), cfg["pen"], cfg["policy"])
+    objs = {}
+    for a, d in case["image"]:
+        o = build_instr(d, a)
+        objs[a] = o
+        plain.write_instruction(a, o)
+        ims.write_instruction(a, o)
+    rc = RefCache(cfg["ib"], cfg["bb"], cfg["assoc"], cfg["policy"], False)
+    for a in case["fetches"]:
+        r = ims.read_instruction(a)
+        rc.access(a, False)
+        res.count("sparse_fetches")
+        if not same_instr(r, plain.read_instruction(a)):
+            res.violation("C11", "fetch-transparency", "sparse instruction memory: fetch at %d returned %r, uncached instruction memory holds %r" % (a, r, plain.read_instruction(a)), case)
+            return
+    st = ims.get_cache_stats()
+    if (int(st["hits"]), int(st["accesses"])) != (rc.hits, rc.accesses):
+        res.violation("C11", "fetch-accounting", "sparse instruction memory: (hits, accesses)=%r reference=%r" % ((st["hits"], st["accesses"]), (rc.hits, rc.accesses)), case)
+        return
+    # program level: same image with and without I-cache, both modes
+    for mode in ("single", "five"):
+        outs = []
+        for ic in (None, cfg):
+            sim = make_riscv(mode, icache=ic)
+            for a, d in case["image"]:
+                sim.state.instruction_memory.write_instruction(a, build_instr(d, a))
+            k = 0
+            try:
+                while not sim.is_done() and k < 300:
+                    sim.step()
+                    k += 1
+            except Exception as e:
+                outs.append(("EXC", repr(e)[:80]))
+                continue
+            outs.append((real_regs(sim), sim.state.output, sim.state.exit_code, bool(sim.is_done())))
+        res.count("sparse_programs")
+        if outs[0] != outs[1]:
+            res.violation("C11", "result-changed", "%s mode, sparse instruction memory: result with I-cache differs from the uncached result" % mode, case)
+            return
+    res.nontrivial(h64(case))
+
+
+def gen_sparse_case(rng):
+    n = rng.randint(3, 14)
+    slots = sorted(rng.sample(range(0, 40), n))
+    if 0 not in slots:
+        slots[0] = 0
+    slots = sorted(set(slots))
+    image = []
+    for i, sl in enumerate(slots):
+        nxt = slots[i + 1] if i + 1 < len(slots) else None
+        if nxt is not None and nxt != sl + 1:
+            d = {"m": "jal", "rd": 0, "imm": 4 * (nxt - sl)}  # jump over the gap
+        else:
+            d = G._alu(rng, [1, 2, 3, 5])
+        image.append((4 * sl, d))
+    fetches = [4 * rng.choice(slots) for _ in range(rng.randint(5, 40))]
+    return {"kind": "sparse", "icache": rand_icfg(rng), "image": image, "fetches": fetches}
+
+
 def directed_cases():
     D = []
     loop = [{"m": "addi", "rd": 5, "rs1": 0, "imm": 6}, {"m": "addi", "rd": 6, "rs1": 6, "imm": 1}, {"m": "add", "rd": 7, "rs1": 7, "rs2": 6}, {"m": "xor", "rd": 8, "rs1": 7, "rs2": 6}, {"m": "addi", "rd": 5, "rs1": 5, "imm": -1}, {"m": "bne", "rs1": 5, "rs2": 0, "imm": -16}, {"m": "addi", "rd": 9, "rs1": 0, "imm": 1}]
@@ -253,6 +323,8 @@ def directed_cases():
 def run_case(prop, case, res):
     if case["kind"] == "prog":
         run_prog(case, res)
+    elif case["kind"] == "sparse":
+        run_sparse_case(case, res)
     else:
         run_reload(case, res)
 
@@ -274,6 +346,8 @@ def run_shard(spec, res):
             case = {"kind": "prog", "prog": prog, "regs": regs, "mem": G.init_mem(rng), "icache": rand_icfg(rng), "max_instr": 300}
             if rng.random() < 0.3:
                 case["dcache"] = pipe.rand_cache(rng)
+        elif spec["kind"] == "sparse":
+            case = gen_sparse_case(rng)
         else:
             n1, n2 = rng.randint(1, 30), rng.randint(1, 30)
             case = {"kind": "reload", "icache": rand_icfg(rng), "p1": simple_prog(rng, n1), "p2": simple_prog(rng, n2), "fetch1": [4 * rng.randrange(n1) for _ in range(rng.randint(0, 40))], "fetch2": [4 * rng.randrange(n2) for _ in range(rng.randint(1, 40))]}
